@@ -88,6 +88,6 @@ c.finish(
     ],
     partial=[
         "resolve_refines is a full theorem (no guard). resolve_refines_pre_F22_refuted and resolve_refines_pre_F39_refuted document named pre-fix variants of the model",
-        "read_render_partial: the reader on bytes (FileReader.open_bytes: header, startxref, /Prev loop, every section parsed from the file) opened on render h c returns the specification's table and trailer for every choice list c - proved for histories without hybrid sections, under the decidable side condition chain_check (evaluated for every generated file: files_satisfying_read_render_side_conditions) and H-parse for the generic dictionary parser; the full statement read_render_statement (hybrid sections, chain_check derived from h) is kept visible",
+        "read_render is a full theorem: the reader on bytes (FileReader.open_bytes: header, startxref, /Prev loop, /XRefStm, every section parsed from the file) opened on render h c returns the specification's table and trailer for every history (classic, stream and hybrid sections) and every choice list c, under conditions on the history and the file size only (rev_ok, wf_chain, shorter than 10^10 bytes; evaluated for every generated file: files_satisfying_read_render_side_conditions) and H-parse for the generic dictionary parser; that the reader's checks accept what the renderer writes is derived in RenderChecks.v",
     ],
 )
